@@ -456,10 +456,20 @@ def sample_path(rel):
     return p if p.exists() else Path("/repo") / rel
 
 
-def cartesian_source(m, name=None):
-    """a source that stores Cartesian node coordinates only (node_lon / node_lat are derived)"""
-    return dict(kind="cartesian", name=name or (m.kind + ":cartesian"), xyz=m.xyz.tolist(),
-                faces=[list(f) for f in m.faces])
+def cartesian_source(m, name=None, radius=1.0):
+    """a source that stores Cartesian node coordinates only (node_lon / node_lat are derived); with a
+    radius other than 1 the store holds RAW (not unit) vectors"""
+    return dict(kind="cartesian", name=name or (m.kind + ":cartesian" + ("" if radius == 1.0 else f":R={radius}")),
+                xyz=(m.xyz * radius).tolist(), faces=[list(f) for f in m.faces])
+
+
+def facevert_xyz_source(m, radius, name=None):
+    """Grid.from_face_vertices(<Cartesian corner vectors at a non-unit radius>, latlon=False)"""
+    fv = [[(m.xyz[v] * radius).tolist() for v in f] for f in m.faces]
+    w = max(len(f) for f in fv)
+    if any(len(f) != w for f in fv):
+        raise ValueError("face vertices need a uniform face size")
+    return dict(kind="face_vertices_xyz", name=name or f"{m.kind}:face_vertices_xyz:R={radius}", verts=fv)
 
 
 def open_source(ux, spec):
@@ -481,6 +491,8 @@ def open_source(ux, spec):
         return ux.Grid.from_dataset(ds, source_grid_spec="Cartesian nodes")
     if spec["kind"] == "file":
         return ux.open_grid(str(sample_path(spec["path"])))
+    if spec["kind"] == "face_vertices_xyz":
+        return ux.Grid.from_face_vertices(np.asarray(spec["verts"], dtype=float), latlon=False)
     if spec["kind"] == "face_vertices":
         return ux.Grid.from_face_vertices(np.asarray(spec["verts"], dtype=float), latlon=True)
     faces = spec["faces"]
@@ -501,6 +513,13 @@ def open_source(ux, spec):
             c /= np.linalg.norm(c, axis=1, keepdims=True)
             kw["edge_lon"] = np.degrees(np.arctan2(c[:, 1], c[:, 0]))
             kw["edge_lat"] = np.degrees(np.arcsin(np.clip(c[:, 2], -1, 1)))
+    if spec.get("variant") == "centres-raw":
+        # source-supplied face / edge centres that are NOT unit vectors (radius 3)
+        xyz0 = np.stack([np.cos(np.radians(lat)) * np.cos(np.radians(lon)), np.cos(np.radians(lat)) * np.sin(np.radians(lon)),
+                         np.sin(np.radians(lat))], axis=1)
+        fc = np.array([xyz0[f].mean(axis=0) for f in faces])
+        fc = 3.0 * fc / np.linalg.norm(fc, axis=1, keepdims=True)
+        kw["face_x"], kw["face_y"], kw["face_z"] = fc[:, 0].copy(), fc[:, 1].copy(), fc[:, 2].copy()
     if "xyz" in spec:
         xyz = np.asarray(spec["xyz"], dtype=float)
         kw["node_x"], kw["node_y"], kw["node_z"] = xyz[:, 0].copy(), xyz[:, 1].copy(), xyz[:, 2].copy()
@@ -610,7 +629,18 @@ def ds_state(g):
     if getattr(g, "_face_jacobian", None) is not None:
         present.append("face_jacobian")
     other = sorted(str(n) for n in g._ds.variables if str(n) not in VID)
-    return dict(present=present, dask=dask, other=other)
+    # digest of the VALUES of every stored variable (a read must leave each of them bit-identical)
+    values = {}
+    for n in map(str, g._ds.variables):
+        try:
+            values[n] = digest(canon(np.asarray(g._ds[n].values)))
+        except Exception as e:  # pragma: no cover
+            values[n] = "undigestable:" + type(e).__name__
+    for attr in ("_antimeridian_face_indices", "_face_jacobian"):
+        v = getattr(g, attr, None)
+        if v is not None:
+            values[attr] = digest(canon(np.asarray(v)))
+    return dict(present=present, dask=dask, other=other, values=values)
 
 
 class Session:
@@ -1091,6 +1121,16 @@ class Judge:
                 b, a = ids.val(st["gl_before"]), ids.val(st["gl_after"])
                 steps_enc.append(f"2 {b} {a} {b}")
                 meta.append((i, "globals"))
+                # every variable a grid's store held before the step holds the same VALUES after it
+                prev_states = res["steps"][i - 1]["state"] if i > 0 else res["opened"]
+                for k, (pst, cst) in enumerate(zip(prev_states, st["state"])):
+                    if specs[k].get("incomplete") or "values" not in pst:
+                        continue
+                    keys = sorted(pst["values"])
+                    b_ = digest(["dict", {n: ["str", pst["values"][n]] for n in keys}])
+                    a_ = digest(["dict", {n: ["str", cst["values"].get(n, "absent")] for n in keys}])
+                    steps_enc.append(f"0 {ids.val(a_)} {ids.val(b_)}")
+                    meta.append((i, ("store", k)))
         if not jit_off and "gl_after_open" in res:
             # opening the sources: starts from the post-import content and must leave it
             steps_enc.append(f"2 {ids.val(self.gl_init)} {ids.val(res['gl_after_open'])} {ids.val(res['gl_before_open'])}")
@@ -1122,6 +1162,9 @@ class Judge:
             failed.add(m[k])
             del enc[k], m[k]
         for (i, what) in sorted(failed):
+            if isinstance(what, tuple) and what[0] == "store":
+                self.report_store(specs, hist, res, i, what[1], tag, shrink)
+                continue
             if what == "globals-wide":
                 names = [n for n in res["wide_changed"] if not n.startswith(("uxarray.conventions.", "uxarray.constants."))] or res["wide_changed"]
                 ctx.fail("C08/globals-wide/" + ",".join(names[:3]),
@@ -1138,6 +1181,39 @@ class Judge:
         if not jit_off:
             self.model_correspondence(specs, hist, res, tag, bool(failed))
         return failed
+
+    @staticmethod
+    def store_changed(res, i, k):
+        prev = (res["steps"][i - 1]["state"] if i > 0 else res["opened"])[k]["values"]
+        cur = res["steps"][i]["state"][k]["values"]
+        return sorted(n for n in prev if cur.get(n, "absent") != prev[n])
+
+    def report_store(self, specs, hist, res, i, k, tag, shrink):
+        """a read rewrote (or removed) a variable the store already held"""
+        ctx = self.ctx
+        changed = self.store_changed(res, i, k)
+        mspecs, mhist = specs, list(hist[: i + 1])
+        if shrink and len(mhist) > 1:
+            # greedy: drop earlier steps while the last step still rewrites something of grid k
+            budget = 12
+            j = 0
+            while j < len(mhist) - 1 and budget > 0:
+                cand = mhist[:j] + mhist[j + 1:]
+                budget -= 1
+                try:
+                    r2 = self.S.run_history(specs, cand)
+                    if self.store_changed(r2, len(cand) - 1, k):
+                        mhist = cand
+                        continue
+                except Exception:
+                    pass
+                j += 1
+        gi, op = mhist[-1]
+        sig = f"C08/store-rewritten/{changed[0] if changed else '?'}/by={op_class(op).split(':')[0]}"
+        ctx.fail(sig, f"{op_class(op)} on grid {gi} changed the stored values of {changed} of grid {k} "
+                      f"(source {specs[k]['name']}): a read rewrote a variable the store already held",
+                 dict(specs=mspecs, hist=[[g, o] for g, o in mhist], observe=len(mhist) - 1, what="store", tag=tag),
+                 impl=dict(changed=changed), clauses=["memo_sound: the store only grows, what is there stays as it is"])
 
     def report(self, specs, hist, res, i, what, tag, shrink, jit_off):
         ctx = self.ctx
@@ -1261,6 +1337,10 @@ def build_sources(rng, thorough=False):
         file_source("mpas"),
         mesh_source(meshes.cube_sphere(2).drop_faces(random.Random(2), 0.4), "plain"),
         cartesian_source(meshes.antiprism(4, lat=30.0, lon0=100.0)),
+        cartesian_source(meshes.prism(5), radius=2.0),
+        mesh_source(meshes.prism(4), "centres-raw"),
+        cartesian_source(meshes.cube_sphere(1), radius=6371.229),
+        facevert_xyz_source(meshes.patch(2, 2, lon0=-20, lat0=-15), 0.5),
         mesh_source(meshes.prism(5), "edges-incomplete", rng=random.Random(8)),
         mesh_source(meshes.prism(3), "edges-incomplete+coords", rng=random.Random(9)),
     ]
@@ -1546,7 +1626,10 @@ def run(ctx):
                         J.history([sp], [(0, a), (0, b)], "all-pairs", shrink=False)
         phase["chunk+pairs"] = round(time.time() - t0, 1)
         # 2b. saturation (every source) and argument cross-talk (an antimeridian source + a seeded one)
-        for sp in srcs:
+        raw = [sp for sp in srcs if ":R=" in sp["name"] or sp.get("variant") == "centres-raw"]
+        rest = [sp for sp in srcs if sp not in raw]
+        sat = srcs if (ctx.thorough or ctx.escalate) else raw + rng.sample(rest, min(7, len(rest)))
+        for sp in sat:
             J.history([sp], saturation_history(rng, OPS[sp["name"]]), "saturation", shrink=True)
         for sp in ([srcs[1], rng.choice(srcs)] if not (ctx.thorough or ctx.escalate) else srcs[:8]):
             for h in crosstalk_histories(rng, OPS[sp["name"]]):
